@@ -874,6 +874,7 @@ func (g *GoFakeS3) copyObject(bucket, object string, meta map[string]string, w h
 			meta[k] = v
 		}
 	}
+	verifhook.At("copy.between-get-put")
 	put, err := g.storage.PutObject(bucket, object, meta, srcObj.Contents, srcObj.Size)
 	if err != nil {
 		return err
